@@ -171,12 +171,26 @@ func genNCOps(r *sim.Rng, n int, allowBad bool) []ncOp {
 			return r.Pick(ncArgPool)
 		}
 		ds := func() string { return r.Pick([]string{"running", "candidate", "startup"}) }
+		// a sixth of the filter types / defaults modes are not ones the library knows (wrong case, a
+		// trailing blank, another word): the operation must be refused and nothing transmitted
+		ft := func() string {
+			if allowBad && r.Chance(1, 6) {
+				return r.Pick([]string{"XPath", "Subtree", "xpath ", "regex"})
+			}
+			return r.Pick([]string{"subtree", "xpath", "subtree"})
+		}
+		dt := func() string {
+			if allowBad && r.Chance(1, 8) {
+				return r.Pick([]string{"Report-All", "all", "trim "})
+			}
+			return r.Pick([]string{"", "report-all", "trim", "explicit", "report-all-tagged"})
+		}
 		var o ncOp
 		switch r.Intn(12) {
 		case 0:
-			o = ncOp{Kind: "get", Args: []string{a(), r.Pick([]string{"subtree", "xpath", "subtree"})}}
+			o = ncOp{Kind: "get", Args: []string{a(), ft()}}
 		case 1:
-			o = ncOp{Kind: "getconfig", Args: []string{ds(), a(), r.Pick([]string{"subtree", "xpath"}), r.Pick([]string{"", "report-all", "trim", "explicit", "report-all-tagged"})}}
+			o = ncOp{Kind: "getconfig", Args: []string{ds(), a(), ft(), dt()}}
 		case 2:
 			o = ncOp{Kind: "edit", Args: []string{ds(), "<config>" + a() + "</config>"}}
 		case 3:
@@ -811,6 +825,10 @@ func runNCCase(id string, c *ncCase) {
 			cs.Oracle = fmt.Sprintf("request %d: unexpected error %v", i, err)
 			cs.Sig = "C08:error"
 		default:
+			if why := ncMustRefuse(o); why != "" && cs.Oracle == "" {
+				cs.Oracle = fmt.Sprintf("request %d (%s) was sent and answered although %s: the operation must be refused, not sent without what the caller asked for", i, o.Kind, why)
+				cs.Sig = "C03:not-refused"
+			}
 			rpcErr, parseErr := false, false
 			if oe, ok := r.Failed.(*response.OperationError); ok && oe != nil {
 				if strings.HasPrefix(oe.ErrorString, "unable to parse netconf 1.1 response") {
@@ -1093,4 +1111,31 @@ func ordinal(n int) string {
 		return "3rd"
 	}
 	return fmt.Sprintf("%dth", n)
+}
+
+// ncMustRefuse: the operation names a filter type / defaults mode the library does not know ("" = no).
+func ncMustRefuse(o ncOp) string {
+	a := func(i int) string {
+		if i < len(o.Args) {
+			return o.Args[i]
+		}
+		return ""
+	}
+	badType := func(f, t string) bool { return f != "" && t != "" && t != "subtree" && t != "xpath" }
+	switch o.Kind {
+	case "get":
+		if badType(a(0), a(1)) {
+			return fmt.Sprintf("its filter type %q is unknown", a(1))
+		}
+	case "getconfig":
+		if badType(a(1), a(2)) {
+			return fmt.Sprintf("its filter type %q is unknown", a(2))
+		}
+		switch a(3) {
+		case "", "report-all", "trim", "explicit", "report-all-tagged":
+		default:
+			return fmt.Sprintf("its defaults mode %q is unknown", a(3))
+		}
+	}
+	return ""
 }
